@@ -121,6 +121,19 @@ def judge(case) -> Verdict:
         if acl_case["items"][idx]["t"] != "ace":
             v.fail("dropped:remark-removed", dict(detail, line=before[idx][0]))
             return v
+    # the surviving entries are untouched: attached group members (part of their meaning) and notes
+    survivors = [i for i in range(len(before)) if i not in set(dropped)]
+    for obj, i in zip(A.flat_items(acl.items), survivors):
+        it = acl_case["items"][i]
+        if it["t"] != "ace":
+            continue
+        for side, attr in (("src", "srcaddr"), ("dst", "dstaddr")):
+            if it["rec"][side]["k"] == "group":
+                got_m = [x.wildcard for x in getattr(obj, attr).items]
+                want_m = [f"{R.int2ip(b)} {R.int2ip(w)}" for b, w in G.addr_members(it["rec"][side])]
+                if got_m != want_m:
+                    v.fail("survivors:group-members-changed", dict(detail, line=obj.line, members=got_m, want=want_m))
+                    return v
     # (3) witness
     recs = [it.get("rec") for it in acl_case["items"]]
     for idx in dropped:
